@@ -75,6 +75,7 @@ func checkBytes(blk []byte, pos int, enc []byte, id string) int {
 		return pos + len(enc)
 	}
 	vCheck(vBytesEq(blk[pos:pos+len(enc)], enc), "C04/"+id+"/slot-holds-exactly-this-field")
+	vCheck(vBytesEq(blk[pos:pos+len(enc)], enc), "C05/"+id+"/emitted-at-the-place-MS-CIFS-gives-it")
 	return pos + len(enc)
 }
 
